@@ -41,3 +41,13 @@ _BROKER = {
 for _k, _t in _BROKER.items():
     CLAIMS[_k] = dict(category='exploration', ref='5 Core E, 8 ' + _k, text=_BROKER_TEXT % _t,
                       technique="Lean 4 executable model + reference specification, differential correspondence to the real broker; proofs in progress")
+
+CLAIMS['C19'] = dict(category='proof', ref='8 C19',
+    text="Lean theorems over the regenerated deadline expression and constants: for every keep-alive K>0 the read deadline d(K) satisfies "
+         "K < d(K) <= 1.5K (C19_deadline_window), a CONNECT keep-alive of 0 still yields a positive effective value (C19_effective_pos), "
+         "and on the receiver's timed state machine (deadline re-armed at every read) a client whose packets arrive less than K apart is "
+         "never timed out whatever the read delays (C19_active_never_dropped) while a silent one is timed out at most 1.5K after the "
+         "pending read was armed (C19_silent_dropped); PINGREQ is answered by exactly one PINGRESP (C19_pingreq_pingresp); the source "
+         "still has the shape the model assumes (C19_source_shape, regenerated). Tied to the real broker by timed scenarios (K=1,2 s: "
+         "silent from start, pinging, publishing, interval above the deadline) with a will witness. PARTIAL: real time, timers and "
+         "scheduler latency are trusted, not modelled.")
